@@ -254,11 +254,16 @@ func diffKeys(a, b map[string]interface{}) []string {
 }
 
 func TestProjection(t *testing.T) {
-	ev.Rule(chk, "rapid: internal documents with 0-6 keys over every type x purposes x material (Ed25519 2018/2020 with genuine 32-byte OKP JWKs, JsonWebKey2020 over 4 curves, base58 material), 0-3 services of every endpoint shape with extra members, 0-3 alsoKnownAs URIs, other members; resolution models (commitments present/absent, anchor origin of several JSON types, deactivated, times 0 and > 0 incl. updated == created, version id, canonical / equivalent references, operation lists with non-monotone numbers and duplicate references); options (base, method contexts incl. ones equal to a key-suite context, include-operations flags); transformation info from GetTransformationInfoFor{Published,Unpublished} (label, domain, long form); the transformers are long-lived (one per option set for the whole process) and the last 12 results stay held: none of them may change when later calls run; oracle: external document == independent projection (kit/refdoc: own base58 / multibase, id qualification, controller, relationship sections exactly per purposes, services qualified with remaining members, alsoKnownAs unchanged, contexts = DID context, method contexts, base, one per key type in order of first use, no publicKey member) and metadata == model (commitments, anchor origin, deactivated, published, version id, RFC 3339 times when applicable, canonical / equivalent ids), operation lists present iff enabled, de-duplicated, ordered; non-trivial = >= 2 keys with different purposes or types, or base enabled, or an Ed25519 re-encoding")
+	ev.Rule(chk, "rapid: internal documents with 0-6 keys (one document in ten: 7-30 keys and 4-15 services) over every type x purposes x material (Ed25519 2018/2020 with genuine 32-byte OKP JWKs, JsonWebKey2020 over 4 curves, base58 material), 0-3 services of every endpoint shape with extra members, 0-3 alsoKnownAs URIs, other members; resolution models (commitments present/absent, anchor origin of several JSON types, deactivated, times 0 and > 0 incl. updated == created, version id, canonical / equivalent references, operation lists with non-monotone numbers and duplicate references); options (base, method contexts incl. ones equal to a key-suite context, include-operations flags); transformation info from GetTransformationInfoFor{Published,Unpublished} (label, domain, long form); the transformers are long-lived (one per option set for the whole process) and the last 12 results stay held: none of them may change when later calls run; oracle: external document == independent projection (kit/refdoc: own base58 / multibase, id qualification, controller, relationship sections exactly per purposes, services qualified with remaining members, alsoKnownAs unchanged, contexts = DID context, method contexts, base, one per key type in order of first use, no publicKey member) and metadata == model (commitments, anchor origin, deactivated, published, version id, RFC 3339 times when applicable, canonical / equivalent ids), operation lists present iff enabled, de-duplicated, ordered; non-trivial = >= 2 keys with different purposes or types, or base enabled, or an Ed25519 re-encoding")
 	ev.Rapid(t, chk, 1500, 15000, func(t *rapid.T) {
 		c := &Case{Namespace: "did:sidetree", Suffix: "EiD" + rapid.StringMatching(`[A-Za-z0-9_-]{6}`).Draw(t, "suffix")}
 		d := map[string]interface{}{}
 		nk := rapid.IntRange(0, 6).Draw(t, "keys")
+		many := rapid.IntRange(0, 9).Draw(t, "manyEntries") == 0
+		if many {
+			// documents well beyond hand-written sizes
+			nk = rapid.IntRange(7, 30).Draw(t, "manyKeys")
+		}
 		var ks []interface{}
 		types := map[string]bool{}
 		ed := false
@@ -274,7 +279,11 @@ func TestProjection(t *testing.T) {
 			d["publicKey"] = ks
 		}
 		var ss []interface{}
-		for i := 0; i < rapid.IntRange(0, 3).Draw(t, "services"); i++ {
+		ns := rapid.IntRange(0, 3).Draw(t, "services")
+		if many {
+			ns = rapid.IntRange(4, 15).Draw(t, "manyServices")
+		}
+		for i := 0; i < ns; i++ {
 			ss = append(ss, gen.DocService(t, fmt.Sprintf("svc%d", i+1)))
 		}
 		if len(ss) > 0 {
